@@ -180,6 +180,36 @@ let () =
               Printf.printf "%s nt=%s nx=%s nxc=%s\n" (match v with Accept -> "accept" | Reject -> "reject") (string_of_z nt)
                 (String.concat "," (List.map string_of_z (grid_sizes dims))) (String.concat "," (List.map string_of_z nxc))
             end
+          | "session" ->
+            (* have_cv=.. have_bias=n:t,.. cfgs=<cfg>|<cfg>|RESET|...  with <cfg> = cvs/biases,
+               cvs = name:fails:walls,...  (walls 1 = the variable queues a harmonicWalls block "<name>w"),
+               biases = type:name:fails,...;type:...   ("-" = none).  Prints the lists after every configuration. *)
+            let split c s = List.filter (fun x -> x <> "" && x <> "-") (String.split_on_char c s) in
+            let g k = let v = get k in if v = "-" then "" else v in
+            let have_cv = List.map coq_string (split ',' (g "have_cv")) in
+            let have_b = List.map (fun nb -> match String.split_on_char ':' nb with [n; t] -> (coq_string n, coq_string t) | _ -> (coq_string nb, coq_string ""))
+                (split ',' (g "have_bias")) in
+            let st = ref { ms_lists = { l_colvars = have_cv; l_biases = have_b; l_err = false }; ms_pending = [] } in
+            let outs = ref [] in
+            List.iter (fun cfg ->
+                if cfg = "RESET" then
+                  st := { ms_lists = { l_colvars = []; l_biases = []; l_err = false }; ms_pending = !st.ms_pending }   (* reset() does not touch extra_conf *)
+                else begin
+                  let cvs_s, b_s = match String.split_on_char '/' cfg with [a; b] -> (a, b) | [a] -> (a, "") | _ -> ("", "") in
+                  let cvs = List.map (fun b -> match String.split_on_char ':' b with
+                      | [n; f; w] -> { cb_block = { k_name = coq_string n; k_type = coq_string "colvar"; k_fails = (f = "1") };
+                                       cb_walls = (if w = "1" then Some { k_name = coq_string (n ^ "w"); k_type = coq_string "harmonicwalls"; k_fails = false } else None) }
+                      | _ -> { cb_block = { k_name = coq_string b; k_type = coq_string "colvar"; k_fails = false }; cb_walls = None }) (split ',' cvs_s) in
+                  let by_type = List.map (fun grp -> List.map (fun b -> match String.split_on_char ':' b with
+                      | [t; n; f] -> { k_name = coq_string n; k_type = coq_string t; k_fails = (f = "1") }
+                      | _ -> { k_name = coq_string b; k_type = coq_string ""; k_fails = false }) (split ',' grp)) (split ';' b_s) in
+                  st := parse_config_ext true cvs by_type !st
+                end;
+                if cfg <> "RESET" then outs := (Printf.sprintf "%s cv=%s bias=%s" (if !st.ms_lists.l_err then "reject" else "accept")
+                           (String.concat "," (List.map ocaml_string !st.ms_lists.l_colvars))
+                           (String.concat "," (List.map (fun (n, _) -> ocaml_string n) !st.ms_lists.l_biases))) :: !outs)
+              (List.filter (fun x -> x <> "") (String.split_on_char '|' (get "cfgs")));
+            print_endline (String.concat " ; " (List.rev !outs))
           | "rollback" ->
             (* have_cv=a,b have_bias=n:t,n:t cvs=name:0|1,... biases=type:name:0|1,...;type:... (fails flag) *)
             let split c s = List.filter (fun x -> x <> "") (String.split_on_char c s) in
